@@ -164,3 +164,21 @@ SPECS["C11"] = dict(
              witnesses=["ok", "transport-error"]),
     ],
 )
+
+C05_H = ["keepbalance/c05_balance.go", "keepbalance/util.go"]
+SPECS["C05"] = dict(
+    level="model_checking",
+    outside="more than 3 services / 4 mounts / 2 storage classes (the statement speaks of up to 16 services); statistics; rendezvous orders other than the one induced by the fixed service UUIDs (quick) ",
+    assumptions=["mounts of one physical device agree on replica presence and replication level", "MD5 (rendezvous weights) computed concretely for concrete UUIDs, uninterpreted for symbolic ones",
+                 "replica timestamps, MinMtime, read-only flags, replication levels and desired replication are symbolic; layout shape, device sharing and class membership are enumerated by forking"],
+    runs=[
+        dict(name="2x1-classes", pkg="services/keep-balance", harness=C05_H, entry="GosymH_C05_balance",
+             params=dict(quick=dict(servers=2, mounts=1, classes=2, repl2=0, shared=1), thorough=dict(servers=2, mounts=1, classes=2, repl2=1, shared=1)), witnesses=["trash", "pull", "lost", "done"]),
+        dict(name="3x1", pkg="services/keep-balance", harness=C05_H, entry="GosymH_C05_balance",
+             params=dict(quick=dict(servers=3, mounts=1, classes=1, repl2=0, shared=1), thorough=dict(servers=3, mounts=1, classes=1, repl2=1, shared=1)), witnesses=["trash", "pull", "lost", "done"]),
+        dict(name="2x2", tier="thorough", pkg="services/keep-balance", harness=C05_H, entry="GosymH_C05_balance",
+             params=dict(quick=dict(servers=2, mounts=2, classes=1, repl2=0, shared=1)), witnesses=["trash", "pull", "done"]),
+        dict(name="3x1-symuuid", tier="thorough", pkg="services/keep-balance", harness=C05_H, entry="GosymH_C05_balance",
+             params=dict(quick=dict(servers=3, mounts=1, classes=1, repl2=0, shared=0, symuuid=1)), witnesses=["trash", "pull", "done"]),
+    ],
+)
